@@ -38,6 +38,9 @@ def make_case(rng, i, tier):
     else:
         cfg["pitch"] = [cfg["pitch"][0], min(cfg["pitch"][1], cfg["pitch"][0] + 5)]
         case["stream_seed"] = rng.randrange(10 ** 9)
+        # the tokeniser's own resolution is a configuration parameter too (bar capacity = ppqn * 4 * num / den); several
+        # resolutions are used within one process
+        cfg["ppqn"] = rng.choice([None, None, 12, 48, 96])
         case["length"] = rng.randint(1, 80)
         case["p_note"] = rng.choice([0.3, 0.5, 0.7])
         case["rest_heavy"] = rng.random() < 0.35     # rests overshooting the bar capacity before a bar token
@@ -84,7 +87,8 @@ def run(case, ctx):
             tsgs = [t for t in other if t.startswith("tsg")]
             steps = sorted(int(t.split("_")[1]) for t in rests)
             stream = []
-            cap, filled = 96, 0
+            q = cfg.get("ppqn") or 24
+            cap, filled = 4 * q, 0
             while len(stream) < case["length"]:
                 seg = rnd.choice(["fill_exact", "fill_exact", "partial", "overshoot", "tsg", "tsg", "bar", "bar", "note", "note", "misc"])
                 if seg in ("fill_exact", "partial", "overshoot"):
@@ -101,7 +105,7 @@ def run(case, ctx):
                     t = rnd.choice(tsgs)
                     stream.append(t)
                     if filled == 0:
-                        cap = 96 * int(t.split("_")[1]) // 8
+                        cap = 4 * q * int(t.split("_")[1]) // 8
                 elif seg == "bar":
                     stream.append("bar")
                     filled = 0
